@@ -145,7 +145,7 @@ Section World.
     | O => Err EOutOfFuel
     | S f =>
       match alookup (u "type") d with
-      | None => Err EKeyError
+      | None => if vr_detect_notype_parse vr then Err EParse else Err EKeyError
       | Some ty =>
         match alookup (u "spec_version") d with
         | Some sv =>
@@ -422,7 +422,7 @@ Section World.
       match v with
       | JStr s =>
         (* b64decode of a str: non-ASCII text is a ValueError, otherwise binascii's non-strict scan *)
-        if all_ascii s && b64_ok s then Ok (PJ v, false) else Err EValueError
+        if all_ascii s && (if vr_b64_strict vr then b64_strict s else b64_ok s) then Ok (PJ v, false) else Err EValueError
       | _ => Err EValueError        (* TypeError from b64decode, re-raised as ValueError *)
       end
     | KHex =>
